@@ -148,4 +148,34 @@ add("C42", "c_misc",
     text="After return and quiescence: exactly one of (conn, err); a returned conn is the only established connection still open; on error none is open and, when all failed, the error contains every failure; no resolver goroutine remains.",
     note="Completion order of equal latencies is the scheduler's; the oracle is order-independent.")
 
+
+add("C16", "c_transport",
+    [T("TestC16", 15000, 150000), T("TestC16Conn", 4000, 40000)],
+    pre=["TestC16Regression_limit_overhead", "TestC16Known"],
+    rule="protocol in {abridged, intermediate, padded intermediate, full} x header/no header x plain/obfuscated2 listener/net.Pipe; 1..20 payloads with lengths around the 127-word abridged boundary, 4-byte error frames, 1 KiB..16 MiB (rare); chunking reader with drawn cut points incl. 1-byte reads; 1..4 concurrent senders per direction on one transport.Conn. non-trivial = >=2 frames on both sides of the 127-word boundary or a cut inside a length prefix (codec) / that or >1 concurrent sender (conn); distinct by stream description",
+    technique="round-trip PBT (rapid) cross-checked by an independent reference framing reader (pbt/ref/framing.go)",
+    text="The receiver yields exactly the sent payload sequence per sender; the wire parses with the reference reader to the same payloads; 4-byte frames come back as ProtocolErr; the listener selects the codec the client chose.",
+    note="Trusts the harness reference framing written from the transport specification.")
+add("C17", "c_transport",
+    [T("TestC17", 40000, 400000), T("TestC17Sweep", 1, 1, rapid=False)],
+    pre=["TestC17Regression_full_length_below_12", "TestC17Regression_abridged_length_unchecked", "TestC17Known"],
+    fuzz=[dict(name="FuzzC17", seconds=120)],
+    rule="per protocol: random streams, valid streams with mutated length fields, bit flips, truncations, splices, hostile prefixes (every prefix 0..64 and a grid to 2^32-1; abridged first byte 0..255 with all-ones/zero/random tails), full-transport frames with wrong seq/CRC; plus an exhaustive small-prefix sweep (4306 cases). non-trivial = the first frame's length prefix is wholly present; distinct by input",
+    technique="mutation-based PBT (rapid) + exhaustive small-prefix sweep + native fuzzing (thorough); no-panic, bounded-allocation and differential (reference reader) oracles",
+    text="Read returns frames or an error, never panics, never allocates more than 16 MiB + slack for one frame; where the reference reader finds a well-formed frame the codec returns exactly it.",
+    note="Allocation is measured with runtime/metrics and re-measured with ReadMemStats before a breach counts.")
+add("C18", "c_transport",
+    [T("TestC18", 15000, 150000), T("TestC18Listener", 8000, 80000)],
+    rule="tag in {ef,ee,dd x4, random}, dc over int16 incl. +-10000+n, secret in {16 bytes, empty, nil}, random streams incl. draws hitting every reserved prefix, 0..10 writes per direction of 0..64 KiB with drawn read chunkings. non-trivial = data in both directions and a read boundary inside a write; distinct by parameters",
+    technique="round-trip PBT (rapid) + independent reference key schedule decrypting both wire directions",
+    text="Accept recovers (tag, dc); bytes read equal bytes written in both directions; the header avoids the reserved patterns; the reference key schedule decrypts the header to the same tag/dc.",
+    note="")
+add("C19", "c_transport",
+    [T("TestC19", 4000, 40000), T("TestC19Handshake", 8000, 80000, env=BUBBLE)],
+    pre=["TestC19Regression_write_over_65535", "TestC19Known"],
+    rule="write sizes from {0,1,16383,16384,65534,65535,65536,65537,131071,1 MiB,4 MiB} and uniform, 1..6 writes, read buffers 1..128 KiB, two FakeTLS peers and the reference record parser on the wire; handshakes against a reference server hello with right secret/random, wrong secret, wrong random, flipped digest/body bit, zero digest, 1..17 extra handshake records. non-trivial = some write > 65535 or a handshake with a wrong digest; distinct by sizes / variant",
+    technique="round-trip PBT (rapid) + reference TLS record reader and reference HMAC digest",
+    text="Reader's byte stream equals the concatenated writes; every record's length field equals its actual length <= 65535; the handshake succeeds iff the digest is right.",
+    note="")
+
 NOT_CLAIMED = {}
